@@ -77,8 +77,8 @@ Definition as_num (n : num) : jv :=
   else if (nDiv n =? 1) && (nExp n =? 0) then JInt (int_result n)
   else JFloat (fill_text n).
 
-(* AsNode (gen): Int when Frac == 0 && Exp == 0 *)
+(* AsNode (gen): Int when Div == 1 && Exp == 0, as AsNum *)
 Definition as_node (n : num) : jv :=
   if is_big n then JBig (nBig n)
-  else if (nFrac n =? 0) && (nExp n =? 0) then JInt (int_result n)
+  else if (nDiv n =? 1) && (nExp n =? 0) then JInt (int_result n)
   else JFloat (fill_text n).
